@@ -44,19 +44,21 @@ class ParseCheck:
         s.prefixes = params.get('prefixes', True)
         s.completions = params.get('completions', False)
         s.alphabet = params.get('alphabet')
+        s.prefix = list(params.get('prefix', '').encode('latin1'))     # concrete bytes in front of the symbolic region
         s.twin = params.get('twin', False)      # vacuity twin: a deliberately wrong oracle that must raise violations
 
     def body(s):
         ex, w = s.ex, s.w
-        x = sym_bytes(ex, s.L, 'b', s.alphabet)
+        x = s.prefix + sym_bytes(ex, s.L, 'b', s.alphabet)
         s.x = x
+        L = len(x)
         res = {'viol': []}
-        main = parse_summary(w, s.dev, w.parse(s.dev, s.start, list(x)), s.L)
+        main = parse_summary(w, s.dev, w.parse(s.dev, s.start, list(x)), L)
         res['main'] = main
         if main[0] == 'ok' and main[1] < 1:
             res['viol'].append(('O1', 'accepted without consuming a byte', None))
         if s.prefixes:
-            for j in range(1, s.L):
+            for j in range(max(1, len(s.prefix) - 1), L):
                 pre = parse_summary(w, s.dev, w.parse(s.dev, s.start, list(x[:j])), j)
                 if s.twin and main[0] == 'ok' and main[1] == j + 1 and pre != main:
                     res['viol'].append(('TWIN', 'wrong oracle: expects the result already one byte early', j))
@@ -70,8 +72,8 @@ class ParseCheck:
         if s.completions and main[0] == 'incomplete':
             found = None
             for y in COMPLETIONS:
-                r2 = parse_summary(w, s.dev, w.parse(s.dev, s.start, list(x) + list(y)), s.L + len(y))
-                if r2[0] == 'ok' and r2[1] > s.L:
+                r2 = parse_summary(w, s.dev, w.parse(s.dev, s.start, list(x) + list(y)), L + len(y))
+                if r2[0] == 'ok' and r2[1] > L:
                     found = y
                     break
             res['completion'] = bytes_repr(found) if found is not None else None
